@@ -376,14 +376,14 @@ func (gen *generator) gepInstType(elemType, src types.Type, indices []ast.TypeVa
 			idx = gen.getIndex(indexVal)
 		} else {
 			idx = gep.Index{HasVal: false}
-			// Check if index is of vector type.
-			indexType, err := gen.irType(index.Typ())
-			if err != nil {
-				return nil, errors.WithStack(err)
-			}
-			if indexType, ok := indexType.(*types.VectorType); ok {
-				idx.VectorLen = indexType.Len
-			}
+		}
+		// Check if index is of vector type.
+		indexType, err := gen.irType(index.Typ())
+		if err != nil {
+			return nil, errors.WithStack(err)
+		}
+		if indexType, ok := indexType.(*types.VectorType); ok {
+			idx.VectorLen = indexType.Len
 		}
 		idxs = append(idxs, idx)
 	}
